@@ -71,6 +71,10 @@ class Check:
     def finish(self):
         os.makedirs(EVID, exist_ok=True)
         os.makedirs(os.path.join(EVID, "violations"), exist_ok=True)
+        # replay files of earlier runs of this property are stale once it is re-run
+        for old in os.listdir(os.path.join(EVID, "violations")):
+            if old.startswith(self.pid + "_"):
+                os.remove(os.path.join(EVID, "violations", old))
         known = {"open": {}, "fixed": {}}
         if os.path.exists(KNOWN):
             with open(KNOWN) as f:
